@@ -14,12 +14,12 @@ INV_PROP = {'OneProposalPerView': 'C03', 'OneResponsePerView': 'C03', 'OneCommit
             'PreCertificate': 'C02', 'Certificate': 'C02', 'CommitNeedsPreCommits': 'C07', 'LockNeedsPreparations': 'C04', 'ResetClean': 'C05', 'EarlyUsed': 'C05',
             'SilentStep': 'C13', 'MinGap': 'C16', 'EmptyAfterMax': 'C16', 'ExactGapWhenOff': 'C16', 'NotLate': 'C16', 'Prompt': 'C16', 'SubscribeOnlyIfOn': 'C16',
             'Answers': 'C12', 'Termination': 'C09', 'ViewBound': 'C09', 'TimersArmed': 'C10',
-            'NeverAsks': 'C08', 'View0': 'C08', 'Decides': 'C08', 'TheBlock': 'C08'}
+            'ShiftInvariant': 'C14', 'NeverAsks': 'C08', 'View0': 'C08', 'Decides': 'C08', 'TheBlock': 'C08'}
 
 ORD_PROPS = ('CommitLock', 'PreCertificate', 'CommitNeedsPreCommits', 'LockNeedsPreparations')
 ECHO_INVS = ['OneDecision', 'PreBlockOnce', 'PhaseOrder', 'AmevOff', 'TimerOK', 'Silent', 'HeldTxsBelong', 'PrimaryOK', 'ViewEvidence']
 
-MODULE_DEPS = {'MC_NodeCover': ['MC_Node'], 'MC_NodeOrd': ['MC_NodeCover', 'MC_Node']}   # modules a root module EXTENDS (besides DbftNode)
+MODULE_DEPS = {'MC_NodeCover': ['MC_Node'], 'MC_NodeOrd': ['MC_NodeCover', 'MC_Node'], 'MC_DynShift': ['MC_Dyn', 'ShiftInv'], 'MC_LiveShift': ['MC_Live', 'ShiftInv']}   # modules a root module EXTENDS (besides DbftNode)
 
 def node_cfg(name, me=1, h=2, maxview=1, amev=False, watch=False, dyn=False, family=('core',), dev=True, weaken=(), invs=None, n=4,
              emit=False, emitlen=0, props=('CommitLock', 'PreCertificate'), ord=False):
@@ -130,6 +130,12 @@ def live_cfg(name, n=4, silent=(2,), cutsets=(), heal=0, amev=False, maxview=3, 
            % (n, st(silent), ', '.join(st(c) for c in cutsets), b(anytime), heal, st(restart), b(crash), b(amev), maxview))
     return dict(name=name, module='MC_Live', cfg=txt)
 
+# C14 at design level: the specification is clock-shift invariant in every reachable state of the timed compositions (spec/ShiftInv.tla)
+def shift_cfg(base):
+    it = dict(base, name='shift-' + base['name'], module={'MC_Dyn': 'MC_DynShift', 'MC_Live': 'MC_LiveShift'}[base['module']])
+    it['cfg'] = base['cfg'].replace('PROPERTY Termination\n', 'VIEW View\n').replace('INVARIANTS ', 'INVARIANTS ShiftInvariant ')
+    return it
+
 # C09 at design level: closed synchronous composition with silent / cut-off validators, liveness under fairness (spec/MC_Live.tla)
 LIVE_FAMILIES = [live_cfg('live-silent-primary', silent=(2,)), live_cfg('live-silent-backup', silent=(1,)),
                  live_cfg('live-silent-primary-amev', silent=(2,), amev=True),
@@ -143,6 +149,8 @@ LIVE_FAMILIES = [live_cfg('live-silent-primary', silent=(2,)), live_cfg('live-si
                  live_cfg('live-silent-primary-crash3', silent=(2,), restart=(3,), maxview=4, crash=True),
 
                  ]
+
+SHIFT_FAMILIES = [shift_cfg(DYN_FAMILIES[0]), shift_cfg(DYN_FAMILIES[2]), shift_cfg(DYN_FAMILIES[3]), shift_cfg(LIVE_FAMILIES[0]), shift_cfg(LIVE_FAMILIES[2]), shift_cfg(LIVE_FAMILIES[5])]
 
 def tx_cfg(name, me=0, amev=False, maxview=1):
     b = lambda v: 'TRUE' if v else 'FALSE'
@@ -436,6 +444,8 @@ def design(tier, wd, vh=None, names=None, module='MC_Node'):
         items = [('fresh', i) for i in LIVE_FAMILIES]
     elif module == 'MC_Tx':
         items = [('fresh', i) for i in TX_FAMILIES]
+    elif module == 'ShiftInv':
+        items = [('fresh', i) for i in SHIFT_FAMILIES]
     else:
         items = [('fresh', i) for i in NODE_FAMILIES['quick']] + [('cached', i) for i in NODE_FAMILIES['cached'] + NODE_FAMILIES['echo'] + NODE_FAMILIES['flip'] + NODE_FAMILIES['ord']]
         if tier != 'quick':
